@@ -885,7 +885,35 @@ def identity_case(ctx, t):
                           case)
 
 
+BIG_INTS = [2 ** 53, 2 ** 53 + 1, 2 ** 53 + 2, 10 ** 17, 10 ** 17 + 1, 10 ** 17 - 1, -(2 ** 53) - 1, 5, 2 ** 53 + 1]
+
+
+def big_integer_case(ctx):
+    """whole numbers beyond 2**53 in the criteria range: a cell is selected by its own value and by no other (the
+    neighbours that a double cannot tell apart are different numbers), "=x" and "<>x" partition the range"""
+    rng = tuple((v,) for v in BIG_INTS)
+    vals = tuple((k + 1,) for k in range(len(BIG_INTS)))
+    for x in sorted(set(BIG_INTS)):
+        n_eq = sum(1 for v in BIG_INTS if v == x)
+        s_eq = sum(k + 1 for k, v in enumerate(BIG_INTS) if v == x)
+        case = {'law': 'big-integers', 'x': x}
+        ctx.count('directed:big-integers')
+        ctx.case(('big-integers', x))
+        for crit in (x, str(x), '=' + str(x)):
+            outs = {'COUNTIF': (lib.call('countif', rng, crit), n_eq), 'COUNTIFS': (lib.call('countifs', rng, crit), n_eq),
+                    'SUMIF': (lib.call('sumif', rng, crit, vals), s_eq), 'SUMIFS': (lib.call('sumifs', vals, rng, crit), s_eq),
+                    'AVERAGEIF': (lib.call('averageif', rng, crit, vals), s_eq / n_eq),
+                    'COUNTIF<>': (lib.call('countif', rng, '<>' + str(x)), len(BIG_INTS) - n_eq)}
+            for f, (o, want) in outs.items():
+                if o[0] != 'v' or isinstance(o[1], (str, bool)) or o[1] != want:
+                    ctx.violation(f'select/number-beyond-2**53/{f.rstrip("<>")}',
+                                  f'{f}(range {BIG_INTS!r}, criterion {crit!r}{"" if "<>" not in f else " negated"}) = {o!r}; '
+                                  f'exactly the cells equal to {x} give {want!r}', case)
+
+
 def run(ctx):
+    if ctx.shard == 1 % ctx.nshards:
+        big_integer_case(ctx)
     i = 0
     for t in IDENTITY_TEXTS:
         i += 1
@@ -923,6 +951,9 @@ def run(ctx):
 
 
 def replay(ctx, case):
+    if case.get('law') == 'big-integers':
+        big_integer_case(ctx)
+        return
     if case.get('kind') == 'identity':
         identity_case(ctx, case['text'])
         return
